@@ -99,7 +99,88 @@ pub fn c01_case(ctx: &mut Ctx, family: &str, seq: &[u8], k: usize) -> bool {
         });
         return false;
     }
+    // consumption modes (on every case that is short enough to keep this cheap, and on a fraction of the long ones)
+    if seq.len() <= 7 || (seq.len() > 1000 && k % 10 == 1) {
+        if let Ok(items) = &got {
+            let r = guard(|| consumption_modes(|| KmerGenerator::new(seq, k), items));
+            let msg = match r {
+                Ok(None) => None,
+                Ok(Some(m)) => Some(m),
+                Err(p) => Some(format!("panicked: {p}")),
+            };
+            if let Some(m) = msg {
+                ctx.rep.violation(Violation {
+                    key: "consumption-mode".into(),
+                    size: seq.len() * 64 + k,
+                    desc: format!("KmerGenerator::new({:?}, {}) [{}]: a next() loop yields {:?}, but {}", show(seq), k, family, items, m),
+                    argv: vec!["case".into(), "C01".into(), hex(seq), k.to_string()],
+                });
+                return false;
+            }
+        }
+    }
     true
+}
+
+/// The iterator is an object with a protocol: however it is consumed (external `next`, internal iteration through
+/// `fold`-based adapters, a mixture, `nth`, `last`, `count`), it must hand out the same items. `full` is what a plain
+/// `next()` loop delivered.
+fn consumption_modes<I, T, F>(make: F, full: &[T]) -> Option<String>
+where
+    I: Iterator<Item = T>,
+    T: PartialEq + Clone + std::fmt::Debug,
+    F: Fn() -> I,
+{
+    // internal iteration from a fresh iterator
+    let mut v: Vec<T> = Vec::new();
+    make().for_each(|x| v.push(x));
+    if v != full {
+        return Some(format!("for_each on a fresh iterator gives {:?}", v));
+    }
+    if make().count() != full.len() {
+        return Some(format!("count() = {} but next() yields {} items", make().count(), full.len()));
+    }
+    if make().last() != full.last().cloned() {
+        return Some("last() differs from the last item of a next() loop".to_string());
+    }
+    // n items by next(), the rest by internal iteration / by collect / by nth
+    for n in 0..=full.len().min(3) {
+        let mut it = make();
+        let mut got: Vec<T> = Vec::new();
+        for _ in 0..n {
+            if let Some(x) = it.next() {
+                got.push(x);
+            }
+        }
+        it.for_each(|x| got.push(x));
+        if got != full {
+            return Some(format!("{n} item(s) by next() and the rest by for_each gives {:?}", got));
+        }
+        let got: Vec<T> = make().skip(n).collect();
+        if got[..] != full[n.min(full.len())..] {
+            return Some(format!("skip({n}) then collect gives {:?}", got));
+        }
+        if make().nth(n) != full.get(n).cloned() {
+            return Some(format!("nth({n}) differs"));
+        }
+        let mut it = make();
+        let head: Vec<T> = it.by_ref().take(n).collect();
+        let mut tail: Vec<T> = Vec::new();
+        let acc = it.fold(0usize, |a, x| {
+            tail.push(x);
+            a + 1
+        });
+        if head[..] != full[..n.min(full.len())] || tail[..] != full[n.min(full.len())..] || acc != tail.len() {
+            return Some(format!("take({n}) through by_ref and then fold gives {:?} + {:?}", head, tail));
+        }
+    }
+    // exhausted iterators stay exhausted
+    let mut it = make();
+    while it.next().is_some() {}
+    if it.next().is_some() {
+        return Some("yields an item after having returned None".to_string());
+    }
+    None
 }
 
 fn c01_nontrivial(seq: &[u8], k: usize) -> bool {
@@ -519,7 +600,18 @@ pub fn c09_case(ctx: &mut Ctx, family: &str, seq: &[u8], w: usize, m: usize) -> 
     let got = guard(|| MinimiserGenerator::new(seq, w, m).collect::<Vec<(u64, usize, usize)>>());
     let (key, what) = match &got {
         Err(p) => ("panic".to_string(), format!("panicked: {}", p)),
-        Ok(g) if *g == exp => return true,
+        Ok(g) if *g == exp => {
+            if seq.len() <= 7 || (seq.len() > 1000 && m % 4 == 1) {
+                let r = guard(|| consumption_modes(|| MinimiserGenerator::new(seq, w, m), g));
+                match r {
+                    Ok(None) => return true,
+                    Ok(Some(msg)) => ("consumption-mode".to_string(), format!("a next() loop yields the expected runs, but {msg}")),
+                    Err(p) => ("consumption-mode".to_string(), format!("consuming the iterator in another way panicked: {p}")),
+                }
+            } else {
+                return true;
+            }
+        }
         Ok(g) => (classify_runs(&exp, g).to_string(), "runs differ".to_string()),
     };
     ctx.rep.violation(Violation {
@@ -544,7 +636,15 @@ pub fn c18_case(ctx: &mut Ctx, family: &str, seq: &[u8], w: usize, m: usize) -> 
             KmerMinimiserGenerator::new(seq, w, m).collect::<Vec<(u64, usize, usize, Vec<u64>)>>(),
         )
     });
-    let exp_stream: Vec<u64> = model::canon_stream(seq, w).into_iter().map(|c| c as u64).collect();
+    // bytes 0x00-0x03 are left unspecified by C01 (pre-encoded bases): for inputs containing them the reference for the
+    // w-mer stream is the core k-mer iterator itself rather than the model (the comparison with the plain minimiser
+    // iterator is differential anyway)
+    let raw = seq.iter().any(|&b| b < 4);
+    let exp_stream: Vec<u64> = if raw {
+        guard(|| KmerGenerator::new(seq, w).map(|(f, r)| f.min(r)).collect::<Vec<u64>>()).unwrap_or_default()
+    } else {
+        model::canon_stream(seq, w).into_iter().map(|c| c as u64).collect()
+    };
     let (key, what) = match &got {
         Err(p) => ("panic".to_string(), format!("panicked: {}", p)),
         Ok((plain, with)) => {
@@ -561,6 +661,12 @@ pub fn c18_case(ctx: &mut Ctx, family: &str, seq: &[u8], w: usize, m: usize) -> 
                     "wmers-wrong"
                 };
                 (k.to_string(), format!("concatenated k-mer lists {:?}, expected canonical w-mers {:?}", concat, exp_stream))
+            } else if seq.len() <= 7 {
+                match guard(|| consumption_modes(|| KmerMinimiserGenerator::new(seq, w, m), with)) {
+                    Ok(None) => return true,
+                    Ok(Some(msg)) => ("consumption-mode".to_string(), format!("a next() loop agrees with the plain iterator, but {msg}")),
+                    Err(p) => ("consumption-mode".to_string(), format!("consuming the iterator in another way panicked: {p}")),
+                }
             } else {
                 return true;
             }
@@ -767,7 +873,30 @@ pub fn c09(ctx: &mut Ctx) {
     minimiser_spaces(ctx, 9)
 }
 pub fn c18(ctx: &mut Ctx) {
-    minimiser_spaces(ctx, 18)
+    minimiser_spaces(ctx, 18);
+    // every byte value 0..=255 in short clean contexts: both iterators must classify every byte alike
+    let ctxs = strings(S4, 0, 3);
+    let mut sh = ctx.shard;
+    let mut n = 0u64;
+    for b in 0u16..=255 {
+        let b = b as u8;
+        for u in &ctxs {
+            for v in &ctxs {
+                if !sh.mine() {
+                    continue;
+                }
+                let mut s = u.clone();
+                s.push(b);
+                s.extend_from_slice(v);
+                for (w, m) in [(1usize, 1usize), (2, 1), (2, 2), (3, 2)] {
+                    c18_case(ctx, "byte-class", &s, w, m);
+                    n += 1;
+                    ctx.rep.nontrivial += 1;
+                }
+            }
+        }
+    }
+    ctx.rep.count("cases.byte_class", n);
 }
 
 /// re-execution of one recorded case
